@@ -114,9 +114,20 @@ def check(F, rep, tier):
         else: rep.bad("R06.2", "semver-core-rest", "non-integer / extra core components are not added to the pre-release identifiers", f.where())
     ppc = [f for f in F.find("pep440::from_zerv::<impl crate::version::pep440::core::PEP440>::process_core")]
     if rep.anchor("R06.2", "PEP440::process_core", ppc):
-        f = ppc[0]; rep.fn_seen(f)
-        rel = any((mir.callee(t) or "").endswith("Vec::<T, A>::push") and any(o.fields()[-1:] == ["release"] for o in mir.trace_op(f, t[2][0])) for bi, t in f.calls())
-        loc = any((mir.callee(t) or "").endswith("add_flattened_to_local") for bi, t in f.calls())
+        rep.fn_seen(ppc[0])
+        f = mir.inlined(F, ppc[0], depth=4)          # helpers spliced in: what matters is where values are pushed
+        def push_field(t):
+            out = set()
+            for o in mir.trace_op(f, t[2][0]):
+                if o.fields(): out.add(o.fields()[-1])
+            for o in mir.trace_op(f, t[2][0], transparent=()):
+                if o.kind == "call" and (mir.callee(f.blocks[o.data]["t"]) or "").endswith("get_or_insert_with"):
+                    for o2 in mir.trace_op(f, f.blocks[o.data]["t"][2][0], transparent=()):
+                        if o2.fields(): out.add(o2.fields()[-1])
+            return out
+        pushes = [push_field(t) for bi, t in f.calls() if (mir.callee(t) or "").endswith("Vec::<T, A>::push")]
+        rel = any("release" in x for x in pushes)
+        loc = any("local" in x for x in pushes)
         if rel and loc: rep.ok("R06.2", "PEP 440 core: integers pushed to release, everything else to the local segment", nontrivial_key="pcore")
         else: rep.bad("R06.2", "pep440-core", "PEP 440 core placement changed (release push: %s, local fallback: %s)" % (rel, loc), f.where())
     # ---- R06.3 PEP 440 extra_core dispatch ------------------------------------------------------------------
